@@ -150,3 +150,22 @@ func ZZ_C05_FrameLicenseChange() {
 	}
 	zzvf.Reach("FrameLicenseChange")
 }
+
+// licenses with bytes >= 0x80 (concrete: the CRC is then computed by the interpreter, no
+// solver): the frame carries the hash of the license's BYTES (reference: the byte-slice
+// form of the hash over []byte(license))
+//vf: paths=5000
+func ZZ_C05_FrameNonAsciiLicense() {
+	lics := []string{"ライセンス", "cl\xe9", "\xff\xfe", "plain"}
+	lic := lics[zzvf.Choose(len(lics))]
+	ov := lics[zzvf.Choose(len(lics))]
+	c := &OneWayTcpClient{License: lic}
+	p, _, _ := zz5fPack()
+	g1 := c.makeData(&wnet.TcpSend{Pack: p}).ToByteArray()
+	g2 := c.makeData(&wnet.TcpSend{Pack: p, Opts: []wnet.TcpClientOption{wnet.WithLicense(ov)}}).ToByteArray()
+	if len(g1) >= 18 && len(g2) >= 18 {
+		zzvf.Assert(zzvf.Same(g1[10:18], zz5fBE(uint64(whash.Hash64([]byte(lic))), 8)), "FrameNonAsciiLicense/client-license-bytes-hashed")
+		zzvf.Assert(zzvf.Same(g2[10:18], zz5fBE(uint64(whash.Hash64([]byte(ov))), 8)), "FrameNonAsciiLicense/override-license-bytes-hashed")
+	}
+	zzvf.Reach("FrameNonAsciiLicense")
+}
